@@ -260,3 +260,25 @@
         kani::cover!(N == 0 || n == 1 + 4 * N);
         std::mem::forget(d);
     }
+
+// @h id=H8.3r-k$k prop=C08 rep="k:0-2" quick="0-2" cap=600 mem=14 unwind=12 uw="from_reader_impl=3" checks=std alloclimit=31 stubs="allocator model: Kani's __rust_alloc/__rust_alloc_zeroed/__rust_realloc plus an assertion that no single request exceeds 2^31 bytes" bounds="Directory::from_reader with an UNTRUSTED declared length: entry count one of {2^63, 2^40, 2^64-1} followed by 2 arbitrary bytes, declared directory length one of {2^64-1, 2^42, 2^64-1} (concrete: a symbolic length makes every read through Take symbolic)"
+    /// a hostile entry count combined with a hostile declared section length is still answered with an error (no capacity overflow, no absurd allocation)
+    #[kani::proof]
+    fn h8_3r_count_and_length_hazard_k$k() {
+        const COUNTS: [u64; 3] = [1u64 << 63, 1u64 << 40, u64::MAX];
+        let count: u64 = COUNTS[$k];
+        let x0: u8 = kani::any();
+        let x1: u8 = kani::any();
+        const DECL: [u64; 3] = [u64::MAX, 1u64 << 42, u64::MAX];
+        let declared: u64 = DECL[$k];
+        let mut img = [0u8; 12];
+        vr::put_varint_w(&mut img, 0, count, 10);
+        img[10] = x0;
+        img[11] = x1;
+        let mut cur = std::io::Cursor::new(&img[..]);
+        let r = Directory::from_reader(&mut cur, declared, Compression::None);
+        assert!(r.is_err());
+        kani::cover!(x0 == 0x80 && x1 == 0);
+        kani::cover!(x0 == 1);
+        std::mem::forget(r);
+    }
